@@ -284,6 +284,7 @@ fn p_c10() -> Profile {
     p.w[W_REOPEN] = 0;
     p.w[W_CLOCK] = 0;
     p.w[W_MAJOR] = 4;
+    p.no_huge_values = true;
     p
 }
 
